@@ -68,6 +68,9 @@ type topoState struct {
 	// invalid / duplicate row injection for the next refreshes
 	invalidFor  string
 	invalidKind int
+	// filterOn: the session has a host filter that rejects the addresses 10.0.0.x with
+	// x = 2 mod 3 (never the first contact point)
+	filterOn bool
 	dupFor      string
 	compares    int
 	// splitAddrs: nodes have distinct rpc and node-to-node addresses
@@ -124,6 +127,15 @@ func (st *topoState) event(typ, change, addr string) {
 	st.cl.PushEvent(&cqlspec.Response{EventType: typ, EventChange: change, EventIP: net.ParseIP(addr).To4(), EventPort: 9042})
 }
 
+// rejected: does the session's host filter reject the node at this address?
+func (st *topoState) rejected(addr string) bool {
+	if !st.filterOn {
+		return false
+	}
+	ip := net.ParseIP(addr).To4()
+	return ip != nil && ip[0] == 10 && ip[1] == 0 && ip[3]%3 == 2
+}
+
 func runTopo(e *Env) {
 	k := e.K
 	tp := k.Tape
@@ -142,6 +154,18 @@ func runTopo(e *Env) {
 	e.Note("splitAddrs", st.splitAddrs)
 
 	cfg := BaseConfig(cl, "10.0.0.1")
+	if tp.Chance(1, 4) {
+		// a host filter; every initial node is a contact point, so that the control connection
+		// may well begin at a node the filter rejects
+		st.filterOn = true
+		cfg.Hosts = nil
+		for _, h := range cl.Hosts {
+			cfg.Hosts = append(cfg.Hosts, h.Addr)
+		}
+		cfg.HostFilter = gocql.HostFilterFunc(func(h *gocql.HostInfo) bool { return !st.rejected(h.ConnectAddress().String()) })
+		k.Fault("topo.host-filter")
+	}
+	e.Note("hostFilter", st.filterOn)
 	cfg.ProtoVersion = []int{4, 3}[tp.Next(2)]
 	cfg.NumConns = 1 + tp.Next(2)
 	// the long timeout outlives the driver's one-second debounce windows, so that a refresh
@@ -184,6 +208,10 @@ func runTopo(e *Env) {
 					rows[i].NullTokens = true
 				case 3:
 					rows[i].NullHostID = true
+				case 4: // a node that is still joining: no rpc_address yet, everything else there
+					rows[i].NullRPC = true
+				case 5:
+					rows[i].NullDC = true
 				default:
 					rows[i].NullRack = true
 				}
@@ -224,6 +252,20 @@ func runTopo(e *Env) {
 		return
 	}
 	st.sess = sess
+	// the node the control connection went to (with several contact points: any of them,
+	// possibly one the host filter rejects); it is never removed or moved
+	ctrlAddr := "10.0.0.1"
+	if c := sess.VerifControlConn(); c != nil {
+		if name := ConnName(c); strings.Contains(name, "#") {
+			ctrlAddr = name[:strings.Index(name, "#")]
+		}
+	}
+	if ctrlAddr != "10.0.0.1" {
+		k.Probe("control-connection-on-another-contact-point")
+		if st.rejected(ctrlAddr) {
+			k.Probe("control-connection-on-a-node-the-filter-rejects")
+		}
+	}
 	pump := func() { cl.Process(); cl.DeliverAll() }
 	settle := func(d time.Duration) {
 		k.SettleUntil(d, 50*time.Millisecond, pump, func() bool { return false })
@@ -237,15 +279,18 @@ func runTopo(e *Env) {
 	}
 	qn := 0
 	for step := 0; step < nSteps && k.Violation() == nil; step++ {
-		// the control host 10.0.0.1 is never removed or moved
+		// the control host is never removed or moved
 		var others []*node.Host
 		for _, h := range cl.Hosts {
-			if h.Addr != "10.0.0.1" {
+			if h.Addr != ctrlAddr {
 				others = append(others, h)
 			}
 		}
 		pick := func() *node.Host { return others[tp.Next(len(others))] }
-		ws := []int{3, 3, 2, 2, 2, 2, 1, 1, 2, 1, 2, 0, 2, 0, 0, 0}
+		ws := []int{3, 3, 2, 2, 2, 2, 1, 1, 2, 1, 2, 0, 2, 0, 0, 0, 0}
+		if len(others) >= 2 {
+			ws[16] = 2
+		}
 		if st.splitAddrs && len(others) > 0 {
 			ws[11] = 3
 		}
@@ -259,7 +304,7 @@ func runTopo(e *Env) {
 			ws[0], ws[13], ws[14], ws[15] = 0, 0, 0, 0
 		}
 		if e.NoFaults {
-			ws = []int{1, 0, 0, 0, 0, 0, 0, 0, 1, 0, 0, 0, 0, 0, 0, 0}
+			ws = []int{1, 0, 0, 0, 0, 0, 0, 0, 1, 0, 0, 0, 0, 0, 0, 0, 0}
 		}
 		peersBefore := cl.PeerQueries
 		switch tp.Weighted(ws) {
@@ -272,6 +317,42 @@ func runTopo(e *Env) {
 			if tp.Chance(1, 2) {
 				st.eventFor("STATUS_CHANGE", "UP", h)
 			}
+		case 16: // two nodes move at once, the first to the address the second gives up
+			a := pick()
+			b := pick()
+			for b == a {
+				b = pick()
+			}
+			if tp.Chance(1, 2) {
+				// the order of the two rows in system.peers matters to a refresh that handles
+				// them one after the other
+				for i, h := range cl.Hosts {
+					if h == a {
+						for j, g := range cl.Hosts {
+							if g == b && j < i {
+								cl.Hosts[i], cl.Hosts[j] = cl.Hosts[j], cl.Hosts[i]
+							}
+						}
+					}
+				}
+			}
+			oldA, oldB := a.Addr, b.Addr
+			st.nextIP++
+			b.Addr = fmt.Sprintf("10.0.0.%d", st.nextIP)
+			a.Addr = oldB
+			delete(st.down, oldA)
+			delete(st.down, oldB)
+			k.Rec("step chain-move %s -> %s, %s -> %s (same ids)", oldA, a.Addr, oldB, b.Addr)
+			k.Fault("topo.chained-address-change")
+			st.unreachable(oldA)
+			for _, sc := range cl.SConns() {
+				if sc.C.Host == oldB && !sc.Dead {
+					cl.CloseConn(sc, false)
+				}
+			}
+			st.reachable(oldB)
+			st.eventFor("TOPOLOGY_CHANGE", "NEW_NODE", a)
+			st.eventFor("TOPOLOGY_CHANGE", "NEW_NODE", b)
 		case 1: // a node leaves
 			h := pick()
 			st.removeModel(h)
@@ -404,7 +485,7 @@ func runTopo(e *Env) {
 				delete(st.down, prev)
 			}
 			st.invalidFor = h.Addr
-			st.invalidKind = tp.Next(4)
+			st.invalidKind = tp.Next(6)
 			k.Rec("step invalid-row %s kind %d", h.Addr, st.invalidKind)
 			k.Fault("topo.invalid-peer-row")
 			st.event("TOPOLOGY_CHANGE", "NEW_NODE", h.Addr)
@@ -608,12 +689,34 @@ func (st *topoState) compare(when string) {
 	// the model: reported, valid nodes
 	want := map[string]*node.Host{}
 	for _, h := range st.cl.Hosts {
-		if h.Addr == st.invalidFor {
+		if h.Addr == st.invalidFor || st.rejected(h.Addr) {
 			continue
 		}
 		want[h.HostID] = h
 	}
 	byID, byIP, list := st.sess.VerifRing()
+	if st.filterOn {
+		// whether the ring remembers a node the filter rejects (a contact point does stay there
+		// until the next refresh) is not observable: such nodes are left out of the comparison
+		// of the ring; pools and policy are compared in full
+		for id, h := range byID {
+			if st.rejected(h.ConnectAddress().String()) {
+				delete(byID, id)
+				for ip, iid := range byIP {
+					if iid == id {
+						delete(byIP, ip)
+					}
+				}
+			}
+		}
+		kept := list[:0:0]
+		for _, h := range list {
+			if !st.rejected(h.ConnectAddress().String()) {
+				kept = append(kept, h)
+			}
+		}
+		list = kept
+	}
 	ids := func(m map[string]*gocql.HostInfo) []string {
 		var out []string
 		for id, h := range m {
@@ -678,6 +781,12 @@ func (st *topoState) compare(when string) {
 	// pools: exactly for reported nodes; every reachable, not-down node is connected
 	pools := st.sess.VerifPoolConns()
 	for id, conns := range pools {
+		for _, h := range st.cl.Hosts {
+			if h.HostID == id && st.rejected(h.Addr) {
+				k.Violate("C16", "C16/pool-for-node-the-filter-rejects", "%s: a connection pool (%d connections) exists for node %s, which the session's host filter rejects", when, len(conns), h.Addr)
+				return
+			}
+		}
 		if want[id] == nil {
 			k.Violate("C16", "C16/pool-for-vanished-node", "%s: a connection pool (%d connections) exists for id …%s which the cluster no longer reports", when, len(conns), id[len(id)-4:])
 			return
@@ -724,6 +833,12 @@ func (st *topoState) compare(when string) {
 		}
 	}
 	for id := range offered {
+		for _, h := range st.cl.Hosts {
+			if h.HostID == id && st.rejected(h.Addr) {
+				k.Violate("C16", "C16/node-the-filter-rejects-offered", "%s: the selection policy offers node %s, which the session's host filter rejects", when, h.Addr)
+				return
+			}
+		}
 		if want[id] == nil {
 			k.Violate("C16", "C16/vanished-node-offered", "%s: the selection policy still offers id …%s which the cluster no longer reports", when, id[len(id)-4:])
 			return
